@@ -11,9 +11,17 @@ code returns an error) the result of `topoSort` is in dependency order and a
 fixed point of the loop; the loop is the identity on any dependency order; and
 the string printer/lexer round trip `unquoteBytes (quoteString s) = some s`
 for every valid UTF-8 `s`.
-Not proved: the value-expression printer/parser round trip.  (That the model's
-closed table is the map the Go loop builds is tied by correspondence, pair for
-pair, on generated graphs.)
+Value expressions (section ValueExpressions, model Martian/FormatExp.lean): for
+every well-formed expression the reader accepts the printed text and returns
+the expression up to `norm` (`parse_format_exp`), printing the result gives
+the same text (`format_exp_idem`), and the normal form is stable
+(`norm_stable`).  The keyword table and the `id` production the tokenizer
+model uses are re-read from the source (`keyword_table_current`,
+`id_tokens_current`).
+(That the model's closed table is the map the Go loop builds, that `fmt` is
+`FormatExp` and `parseValExp` is `ParseValExp` is tied by correspondence on
+generated inputs, every run.)  Not proved: comments, declaration layout,
+include expansion (monitors only); strconv's float printing/parsing (trusted).
 -/
 import Martian.Format
 import Proofs.Format
